@@ -38,6 +38,10 @@ def gen_scenario(rng: random.Random, policy: str, flavour: str = "mixed"):
     ram = rng.choice([1, 2, 5, 10, 20, 40, 80, 200, 400, F(5, 2), F(21, 2), F(161, 4)])
     if flavour == "tiny":
         cpus, ram = rng.choice([1, 2]), rng.choice([F(1, 2), F(3, 4), 1])
+    if flavour == "twins":
+        multi, cpus, ram = False, rng.choice([4, 10, 20]), rng.choice([200, 400, 1000])
+        if policy == "priority-pool":
+            multi = True
     if flavour == "preempt":
         cpus, multi, npools = rng.choice([1, 2, 3]), True, (2 if policy == "priority-pool" else rng.choice([1, 1, 2]))
         ram = rng.choice([20, 40, 80, 200, 400, 1000])
@@ -53,11 +57,23 @@ def gen_scenario(rng: random.Random, policy: str, flavour: str = "mixed"):
         p = Pipeline(f"s{pi + 1}", prio)
         nops = 1 if (prio == Priority.QUERY and rng.random() < 0.7) else rng.randint(2 if flavour == "preempt" else 1, 4)
         ops = []
+        twin = None
+        if flavour == "twins":
+            nops = rng.choice([3, 4])
         for i in range(nops):
             pa = [j for j in range(i) if rng.random() < 0.45]
+            if flavour == "twins":          # a root with identical parallel sink operators: they finish in the same tick in different containers
+                pa = [] if i == 0 else [0]
             o = p.new_operator([ops[j] for j in pa] or None)
+            if flavour == "twins" and i >= 2:
+                for sg0 in ops[1].get_segments():
+                    sg = Segment(baseline_cpu_seconds=sg0.baseline_cpu_seconds, cpu_scaling="const", memory_gb=sg0.memory_gb, storage_read_gb=sg0.storage_read_gb)
+                    o.add_segment(sg)
+                    exact[id(sg)] = dict(exact[id(sg0)])
+                ops.append(o)
+                continue
             for _ in range(rng.choice([1, 1, 1, 2])):
-                law = rng.choice(RATIONAL_LAWS)
+                law = rng.choice(RATIONAL_LAWS) if flavour != "twins" else "const"
                 base = F(4 * rng.choice([0, 1, 2, 3, 6, 10]) + 1, 4 * tps)
                 if rng.random() < 0.15:
                     base = F(0)
